@@ -16,7 +16,7 @@ from . import core
 
 SHARED = {"files": {}}      # set in the parent *before* the pool is created; inherited by fork
 WALL_S = 10.0
-WALL_CAP = 60.0
+WALL_CAP = 30.0
 
 
 class HarnessError(Exception):
@@ -89,7 +89,7 @@ def run_in_child(scenario, wall_s=None):
             os._exit(code)
     os.close(w)
     chunks = []
-    deadline = time.monotonic() + max(wall_cap, wall_s) * 1.5 + 30.0
+    deadline = time.monotonic() + max(wall_cap, wall_s) * 1.5 + 15.0
     killed = False
     while True:
         left = deadline - time.monotonic()
